@@ -91,3 +91,21 @@ pub fn no_bad_pair_anywhere(s: &str, from: usize) -> bool {
 pub fn is_digit(c: u8) -> bool {
     c >= b'0' && c <= b'9'
 }
+
+/// Native replay only (`--cfg verif_native`: stubs inactive, the real itoa/dtoa/String ran): parse the member that
+/// was appended to the fields buffer (`}` + `,"m":...`) with serde_json and return (values, counts) - a scalar is
+/// returned as one value with no counts. `None` if the text is not valid JSON.
+pub fn native_parse_member(fields: &str, pre: usize) -> Option<Option<(Vec<f64>, Vec<u64>)>> {
+    let doc = format!("{{\"x\":0{}}}", &fields[pre..]);
+    let v: serde_json::Value = serde_json::from_str(&doc).ok()?;
+    let m = match v.get("m") {
+        None => return Some(None),
+        Some(m) => m,
+    };
+    if let Some(n) = m.as_f64() {
+        return Some(Some((vec![n], vec![])));
+    }
+    let values: Vec<f64> = m.get("Values")?.as_array()?.iter().map(|x| x.as_f64()).collect::<Option<_>>()?;
+    let counts: Vec<u64> = m.get("Counts")?.as_array()?.iter().map(|x| x.as_u64()).collect::<Option<_>>()?;
+    Some(Some((values, counts)))
+}
